@@ -50,7 +50,11 @@ def _transform_parallel(
     pio_in, pio_out, depth, make_buf, do_one, cli_progress, parallel
 ):
     import multiprocessing as mp
-    from .par_util import check_workers, put_checking_workers
+    from .par_util import (
+        check_workers,
+        finish_checking_workers,
+        put_checking_workers,
+    )
 
     # Start up the workers
 
@@ -76,8 +80,7 @@ def _transform_parallel(
 
     # All done
 
-    queue.close()
-    queue.join_thread()
+    finish_checking_workers(queue, workers, done_event)
     done_event.set()
 
     for w in workers:
